@@ -332,3 +332,11 @@ def search(ctx):
             return Finding("search", case, r, "(specification oracle)", False, why)
     ctx.notes.append(f"failing-input search: {n} fresh inputs, none violates the property")
     return None
+
+
+def replay_case(payload):
+    """search / spec_sample findings: the implementation's answer judged by the specification oracle"""
+    case = payload["case"]
+    r = impl(case)
+    ok, why = oracle(case, r)
+    return ok, why, r
